@@ -227,6 +227,27 @@ END()
 RAW('''
 use crate::httparse::{Outcome, parse_response};
 use crate::parser::spec_try_parse_response;
+/// C10/C11: the postcondition of Flow<Await100>::try_read_100 as a predicate (hypothesis of head_lemmas::lemma_c11_*)
+pub open spec fn c11_handshake<B>(pre: &Inner<B>, post: &Inner<B>, input: Seq<u8>, r: Result<usize, Error>) -> bool {
+    match parse_response(input, 0) {
+            // input ends inside the status line or right after it: decide nothing, consume nothing
+            Outcome::Partial(_) => r == Ok::<usize, Error>(0usize) && post == pre,
+            Outcome::Complete(n, p) =>
+                if !(p.version is Some && p.version->Some_0 <= 1 && p.code is Some && 100 <= p.code->Some_0 <= 999) { r is Err && !post.await_100_continue && post.reasons() == pre.reasons() && post.should_send_body }
+                else if p.code->Some_0 == 100 {
+                    // a complete bare 100: consumed exactly, the body is sent
+                    r == Ok::<usize, Error>(n as usize) && !post.await_100_continue && post.should_send_body && post.reasons() == pre.reasons()
+                } else {
+                    // any other response without fields: consume nothing, never send the body, connection must close
+                    r == Ok::<usize, Error>(0usize) && !post.await_100_continue && !post.should_send_body && post.reasons() == pre.reasons().push(CloseReason::Not100Continue)
+                },
+            Outcome::Err(e) =>
+                if e == crate::httparse::Error::TooManyHeaders {
+                    // a response with fields: it is not a 100
+                    r == Ok::<usize, Error>(0usize) && !post.await_100_continue && !post.should_send_body && post.reasons() == pre.reasons().push(CloseReason::Not100Continue)
+                } else { r is Err && !post.await_100_continue && post.should_send_body && post.reasons() == pre.reasons() },
+        }
+}
 ''')
 IMPL('impl<B> Flow<B, Await100>')
 FN('try_read_100', props=['C11', 'C10', 'C12', 'C09', 'C01'], ret='r',
@@ -235,24 +256,7 @@ FN('try_read_100', props=['C11', 'C10', 'C12', 'C09', 'C01'], ret='r',
    ensures=[
        ('C09.wf_preserved', 'final(self).inner.wf_await100() && final(self).inner.call == old(self).inner.call && final(self).inner.status == old(self).inner.status && final(self).inner.location == old(self).inner.location'),
        ('C12.counts', 'r is Ok ==> r->Ok_0 <= input.len()'),
-       ('C10/C11.handshake_exact', '''match parse_response(input@, 0) {
-            // input ends inside the status line or right after it: decide nothing, consume nothing
-            Outcome::Partial(_) => r == Ok::<usize, Error>(0usize) && final(self).inner == old(self).inner,
-            Outcome::Complete(n, p) =>
-                if !(p.version is Some && p.version->Some_0 <= 1 && p.code is Some && 100 <= p.code->Some_0 <= 999) { r is Err && !final(self).inner.await_100_continue && final(self).inner.reasons() == old(self).inner.reasons() && final(self).inner.should_send_body }
-                else if p.code->Some_0 == 100 {
-                    // a complete bare 100: consumed exactly, the body is sent
-                    r == Ok::<usize, Error>(n as usize) && !final(self).inner.await_100_continue && final(self).inner.should_send_body && final(self).inner.reasons() == old(self).inner.reasons()
-                } else {
-                    // any other response without fields: consume nothing, never send the body, connection must close
-                    r == Ok::<usize, Error>(0usize) && !final(self).inner.await_100_continue && !final(self).inner.should_send_body && final(self).inner.reasons() == old(self).inner.reasons().push(CloseReason::Not100Continue)
-                },
-            Outcome::Err(e) =>
-                if e == crate::httparse::Error::TooManyHeaders {
-                    // a response with fields: it is not a 100
-                    r == Ok::<usize, Error>(0usize) && !final(self).inner.await_100_continue && !final(self).inner.should_send_body && final(self).inner.reasons() == old(self).inner.reasons().push(CloseReason::Not100Continue)
-                } else { r is Err && !final(self).inner.await_100_continue && final(self).inner.should_send_body && final(self).inner.reasons() == old(self).inner.reasons() },
-        }'''),
+       ('C10/C11.handshake_exact', 'c11_handshake(&old(self).inner, &final(self).inner, input@, r)'),
    ],
    head='broadcast use crate::httparse::axiom_outcome_ok;',
    )
@@ -493,8 +497,11 @@ FN('can_redirect_auth_header', props=['C13'], ret='r',
    rewrites=[
        ('N5', 'prev.authority().map(|a| a.host())', "prev.authority().map(|a: &crate::http::uri::Authority| -> (s: &str) ensures str_bytes(s) == a.host_view() { a.host() })"),
        ('N5', 'next.authority().map(|a| a.host())', "next.authority().map(|a: &crate::http::uri::Authority| -> (s: &str) ensures str_bytes(s) == a.host_view() { a.host() })"),
-       ('N9', 'host_prev == host_next && (scheme_prev == scheme_next || scheme_next == Some(&Scheme::HTTPS))',
-        'crate::http::uri::opt_str_eq(host_prev, host_next) && (crate::http::uri::opt_scheme_eq(scheme_prev, scheme_next) || crate::http::uri::opt_scheme_eq(scheme_next, Some(Scheme::https())))'),
+       # N9: `==` on Option<&str> / Option<&Scheme> (PartialEq of foreign types) -> assumed-contract helpers, operand by operand;
+       # the boolean structure of the decision stays exactly as the source has it
+       ('N9~', 'IDENT == Some(&Scheme::HTTPS)', r'crate::http::uri::opt_scheme_eq(\1, Some(Scheme::https()))', '*'),
+       ('N9~', 'host_IDENT == host_IDENT', r'crate::http::uri::opt_str_eq(host_\1, host_\2)', '*'),
+       ('N9~', 'scheme_IDENT == scheme_IDENT', r'crate::http::uri::opt_scheme_eq(scheme_\1, scheme_\2)', '*'),
    ])
 
 RAW('''
